@@ -6,11 +6,20 @@
 package c18
 
 import (
+	"crypto/sha256"
+
+	k1 "github.com/decred/dcrd/dcrec/secp256k1/v4"
+	"github.com/libp2p/go-libp2p/core/peer"
+
 	"context"
 	"encoding/json"
 	"fmt"
+	pbv1 "github.com/obolnetwork/charon/core/corepb/v1"
+	"github.com/obolnetwork/charon/core/parsigex"
+	"github.com/obolnetwork/charon/p2p"
 	"testing"
 	"time"
+	"verifharness/memnet"
 
 	eth2p0 "github.com/attestantio/go-eth2-client/spec/phase0"
 	"pgregory.net/rapid"
@@ -107,6 +116,7 @@ func init() {
 			return runAggSigDB(t, rt, k, seed, true)
 		}},
 		{"sigagg", func(k valgen.Kind) bool { return !k.Unsigned && k.Duty != core.DutySignature }, runSigAgg},
+		{"parsigex_fanout", func(k valgen.Kind) bool { return !k.Unsigned }, runParSigExFanout},
 	}
 }
 
@@ -451,3 +461,62 @@ func runSigAgg(t *testing.T, rt *rapid.T, k valgen.Kind, seed int64) (bool, stri
 }
 
 var _ = eth2p0.Slot(0)
+
+// ---------------------------------------------------------------- parsigex subscriber fan-out
+
+var c18Peers = func() []peer.ID {
+	var out []peer.ID
+	for i := 0; i < 2; i++ {
+		h := sha256.Sum256([]byte(fmt.Sprintf("verif-c18-peer-%d", i)))
+		id, err := p2p.PeerIDFromKey(k1.PrivKeyFromBytes(h[:]).PubKey())
+		if err != nil {
+			panic(err)
+		}
+		out = append(out, id)
+	}
+	return out
+}()
+
+// runParSigExFanout delivers one peer message to a production parsigex component with two subscribers;
+// the first one mutates what it was handed.
+func runParSigExFanout(t *testing.T, rt *rapid.T, k valgen.Kind, seed int64) (bool, string) {
+	v := valgen.Signed(t, k, seed)
+	net := memnet.New()
+	ex := parsigex.NewParSigEx(net.Host(c18Peers[0]), p2p.Send, 0, c18Peers,
+		func(context.Context, peer.ID, core.Duty, core.PubKey, core.ParSignedData) error { return nil },
+		func(core.Duty) bool { return true })
+	var a1, a2 []core.ParSignedDataSet
+	ex.Subscribe(func(_ context.Context, _ core.Duty, set core.ParSignedDataSet) error {
+		a1 = append(a1, set)
+		for _, d := range set {
+			valgen.Scribble(&d)
+		}
+		return nil
+	})
+	ex.Subscribe(func(_ context.Context, _ core.Duty, set core.ParSignedDataSet) error {
+		a2 = append(a2, set)
+		return nil
+	})
+	duty := core.Duty{Slot: 5, Type: k.Duty}
+	in := core.ParSignedDataSet{pk(1): {SignedData: v, ShareIdx: 2}}
+	pbSet, err := core.ParSignedDataSetToProto(in)
+	if err != nil {
+		return false, "toproto"
+	}
+	// what a correct receiver decodes from these bytes (reference for "pristine")
+	ref, err := core.ParSignedDataSetFromProto(k.Duty, pbSet)
+	if err != nil {
+		return false, "fromproto: " + firstWords(err)
+	}
+	pristine := render(ref[pk(1)])
+	f := net.Inject(c18Peers[1], c18Peers[0], parsigex.Protocols()[0], &pbv1.ParSigExMsg{Duty: core.DutyToProto(duty), DataSet: pbSet})
+	net.Take(0)
+	net.Deliver(f)
+	f.Wait()
+	if len(a1) != 1 || len(a2) != 1 {
+		return false, "not-delivered"
+	}
+	mustSame(rt, "parsigex "+k.Name+": second subscriber after the first one mutated its argument", pristine, a2[0][pk(1)])
+	mustDisjoint(rt, "parsigex "+k.Name+": arguments of two subscribers", a1[0], a2[0])
+	return len(valgen.Walk(v)) > 0, ""
+}
